@@ -112,8 +112,8 @@ Binding(r, L) ==
       newg |-> NewGraphIds(r.post),
       fuzz |-> IF r.ty = E_PLACEMENT /\ r.t <= Len(L.ts) THEN L.ts[r.t].rem ELSE 0,
       decs |-> IF "sched" \in DOMAIN r THEN r.sched ELSE [rt |-> 0, decs |-> <<>>],
-      offered1 |-> IF r.offers # <<>> THEN r.offers[1] ELSE <<>>,
-      offered2 |-> IF r.offers # <<>> THEN r.offers[Len(r.offers)] ELSE <<>> ]
+      offered1 |-> IF r.offers # <<>> THEN r.offers[1].res ELSE <<>>,
+      offered2 |-> IF r.offers # <<>> THEN r.offers[Len(r.offers)].res ELSE <<>> ]
 
 \* checks on the drawn branch (C07): drawn among the children, with non-zero weight
 DrawViol(St, r) ==
@@ -138,6 +138,22 @@ PopViol(St, r) ==
     IF ~InSeq(e, St.q) THEN {<<"pop", "not_in_queue">>}
     ELSE (IF \E j \in 1..Len(St.q) : EvLess(St, St.q[j], e) THEN {<<"pop", "not_minimal">>} ELSE {}) \cup
          (IF e.tm # St.now THEN {<<"pop", "time_ne_now">>} ELSE {})
+
+\* C18: every get_schedulable_tasks call made during the handler
+OfferViol(St, o) ==
+    (IF C18_NoStarvation(St, o.tm, o.res) THEN {} ELSE {<<"frontier", "C18_NoStarvation">>}) \cup
+    (IF C18_NoDead(St, o.res) THEN {} ELSE {<<"frontier", "C18_NoDead">>}) \cup
+    (IF C18_ScheduledOnlyIfRetract(St, o.res, o.ret, o.pre) THEN {} ELSE {<<"frontier", "C18_ScheduledOnlyIfRetract">>}) \cup
+    (IF C18_RunningOnlyIfPreempt(St, o.res, o.pre) THEN {} ELSE {<<"frontier", "C18_RunningOnlyIfPreempt">>}) \cup
+    (IF World.fl.no_plan_ahead => C18_ParentsDone(St, o.res, o.la, o.rtg) THEN {} ELSE {<<"frontier", "C18_ParentsDone">>}) \cup
+    (IF C18_NoDuplicates(o.res) THEN {} ELSE {<<"frontier", "C18_NoDuplicates">>}) \cup
+    (IF ~o.pre /\ FrontierDeterministic(St, o.pol) /\ Schedulable(St, o.tm, o.la, o.ret, o.rtg) # o.res
+     THEN {<<"frontier", "C18_Exact">>} ELSE {}) \cup
+    UNION {(IF Range(o.res) \subseteq Range(o.probes[k].res) THEN {} ELSE {<<"frontier", "C18_Monotone">>}) \cup
+           (IF ~o.pre /\ Schedulable(St, o.tm, o.probes[k].la, o.ret, o.probes[k].rtg) # o.probes[k].res
+            THEN {<<"frontier", "C18_ExactProbe">>} ELSE {})
+           : k \in 1..Len(o.probes)}
+FrontierViol(St, r) == UNION {OfferViol(St, r.offers[i]) : i \in 1..Len(r.offers)}
 
 HasExc(r) == "exc" \in DOMAIN r
 RowViol(exp, got) ==
@@ -188,6 +204,8 @@ Next ==
                            ELSE IF C05_SchedulerOvershoot(World, L) THEN {<<"inv", "C05_ByTimeout_scheduler_runtime_overshoot">>}
                            ELSE {<<"inv", "C05_ByTimeout">>})
                      \cup (IF ~C08_CancelCounter(L) THEN {<<"inv", "C08_CancelCounter">>} ELSE {})
+                     \cup (IF h.err = "" /\ ~HasExc(r)
+                           THEN FrontierViol(IF r.ty = E_SCHED_FIN THEN [L EXCEPT !.now = S.now] ELSE QRemove(Sx, e), r) ELSE {})
                      \cup DrawViol(Sx, r)
                      \cup InvViol(World, L) \cup EdgeViol(Sx, L)
             IN  /\ S' = L
